@@ -210,8 +210,10 @@ def offset_algebra(ctx):
     for f_ in forms:
         for _n, env_ in (P.find(val, f_) if val is not None else []):
             b_, x_ = env_["b"][1], env_["x"][1]
-            if _n is val and isinstance(b_, ast.Name) and isinstance(x_, ast.Name):
-                okf = P.has(al, "%s = $k.get('lineno')" % b_.id) and P.has(al, "%s = getattr($e, 'lineno', None)" % x_.id)
+            if _n is val:
+                okb = (isinstance(b_, ast.Name) and P.has(al, "%s = $k.get('lineno')" % b_.id)) or P.matches(b_, "%s.get('lineno')" % pn(al, 2))
+                okx = (isinstance(x_, ast.Name) and P.has(al, "%s = getattr($e, 'lineno', None)" % x_.id)) or P.matches(x_, "getattr(%s, 'lineno', None)" % pn(al, 0))
+                okf = okb and okx
     val = src(val) if val is not None else None
     ctx.check(okf, "adjust.formula", db.where(al), "reported line is %s, expected base + offset + parsed - 1" % val, "base + offset + parsed - 1")
     pp = db.func("pyparser.parse")
